@@ -277,4 +277,5 @@ RULES = [
     ("R-C14-3", "one frame at a time: no spawn below serve, processing awaited in the loop, one worker thread per handler", r3),
     ("R-C14-4", "worker loop: environment merged into the long-lived engine between evaluations; one response per item", r4),
     ("R-C14-5", "resume mapping Head/Tail/After -> (last_id, tail); subscription scoped to the handler's context", r5),
+    ("R-C14-7", "a handler that falls behind is never fed past a gap: a receive error of its subscription ends the stream (shared with R-C11-7), and the handler announces .unregistered (R-C16-2)", lambda run: __import__("rules.C11", fromlist=["x"]).r7(run)),
 ]
